@@ -73,6 +73,7 @@ type Engine struct {
 	oblFilter    string
 
 	undecided []string // keyed functions/loops that no longer exist
+	missing   []missingItem // functions / loops named by a contract that the code no longer has
 	localClause string // label of the clause over locals being type-checked
 	broken    []string // engine-level problems (spec does not type-check, ...)
 	mirrorSrc map[string]string
@@ -311,6 +312,12 @@ func (eng *Engine) indexPackage(p *packages.Package, ps *PkgSpec) {
 	for _, key := range ps.Order {
 		c := ps.Contracts[key]
 		u := byKey[key]
+		if u == nil && c.InitVar != "" {
+			u = eng.initUnit(p, ps, key, c)
+			if u == nil {
+				continue
+			}
+		}
 		if u == nil && c.Iface != "" {
 			u = eng.ifaceUnit(p, ps, key, c)
 			if u == nil {
@@ -318,7 +325,8 @@ func (eng *Engine) indexPackage(p *packages.Package, ps *PkgSpec) {
 			}
 		}
 		if u == nil {
-			eng.undecided = append(eng.undecided, fmt.Sprintf("%s: function %s (contract at %s:%d) not found", ps.Dir, key, c.File, c.Line))
+			eng.missing = append(eng.missing, missingItem{name: ps.Dir + "." + key + "#exists", props: c.Props, pos: fmt.Sprintf("%s:%d", c.File, c.Line),
+				desc: fmt.Sprintf("function %s, which the contract at %s:%d is about, exists in package %s", key, filepath.Base(filepath.Dir(c.File))+"/"+filepath.Base(c.File), c.Line, ps.Dir)})
 			continue
 		}
 		u.C = c
@@ -353,6 +361,49 @@ func (eng *Engine) indexPackage(p *packages.Package, ps *PkgSpec) {
 
 var resultRe = regexp.MustCompile(`\bresult(\d*)\b`)
 var undefinedRe = regexp.MustCompile(`undefined: ([A-Za-z_][A-Za-z0-9_]*)$`)
+
+// initUnit builds the unit of a contract on the initializer of a package-level
+// variable: a synthetic function whose body is `Var = <initializer>`; the
+// ensures clauses are checked after it.
+func (eng *Engine) initUnit(p *packages.Package, ps *PkgSpec, key string, c *Contract) *FuncUnit {
+	for _, f := range p.Syntax {
+		for _, d := range f.Decls {
+			gd, ok := d.(*ast.GenDecl)
+			if !ok || gd.Tok != token.VAR {
+				continue
+			}
+			for _, sp := range gd.Specs {
+				vs, ok := sp.(*ast.ValueSpec)
+				if !ok {
+					continue
+				}
+				for i, nm := range vs.Names {
+					if nm.Name != c.InitVar {
+						continue
+					}
+					if len(vs.Values) != len(vs.Names) {
+						eng.missing = append(eng.missing, missingItem{name: ps.Dir + "." + key + "#exists", props: c.Props, pos: eng.fset.Position(vs.Pos()).String(),
+							desc: fmt.Sprintf("package variable %s has an initializer of its own (the contract at %s:%d is about it)", c.InitVar, filepath.Base(c.File), c.Line)})
+						return nil
+					}
+					lhs := &ast.Ident{Name: nm.Name, NamePos: vs.Values[i].Pos()}
+					// the assignment target must resolve to the package variable
+					p.TypesInfo.Uses[lhs] = p.TypesInfo.Defs[nm]
+					if tv, ok := p.TypesInfo.Types[vs.Values[i]]; ok {
+						p.TypesInfo.Types[lhs] = types.TypeAndValue{Type: tv.Type}
+					}
+					assign := &ast.AssignStmt{Lhs: []ast.Expr{lhs}, TokPos: vs.Values[i].Pos(), Tok: token.ASSIGN, Rhs: []ast.Expr{vs.Values[i]}}
+					body := &ast.BlockStmt{Lbrace: vs.Values[i].Pos(), List: []ast.Stmt{assign}, Rbrace: vs.Values[i].End()}
+					decl := &ast.FuncDecl{Name: &ast.Ident{Name: "init$" + nm.Name, NamePos: vs.Pos()},
+						Type: &ast.FuncType{Func: vs.Pos(), Params: &ast.FieldList{}}, Body: body}
+					fn := types.NewFunc(vs.Pos(), p.Types, "init$"+nm.Name, types.NewSignatureType(nil, nil, nil, nil, nil, false))
+					return &FuncUnit{Fn: fn, Decl: decl, Pkg: p, Spec: ps, ifaceKey: key}
+				}
+			}
+		}
+	}
+	return nil
+}
 
 // ifaceUnit builds the unit of a contract on an interface method: the clauses
 // are type-checked in the scope of a generated stub (receiver first), the
@@ -473,7 +524,8 @@ func (eng *Engine) checkContract(u *FuncUnit) {
 	sort.Ints(ords)
 	for _, n := range ords {
 		if n < 1 || n > len(loops) {
-			eng.undecided = append(eng.undecided, fmt.Sprintf("%s: loop %d of %s not found (function has %d loops)", u.Spec.Dir, n, u.Key(), len(loops)))
+			eng.missing = append(eng.missing, missingItem{name: fmt.Sprintf("%s#loop%d#exists", u.Name(), n), props: u.C.Props, pos: eng.fset.Position(u.Decl.Pos()).String(),
+				desc: fmt.Sprintf("loop %d of %s, for which the contract states an invariant, exists (the function has %d loops)", n, u.Key(), len(loops))})
 			continue
 		}
 		var lpos token.Pos
@@ -535,16 +587,58 @@ func (eng *Engine) checkClause(p *packages.Package, cl *Clause, pos token.Pos, u
 		}
 	}
 	cl.Go = text
-	x, err := parser.ParseExprFrom(eng.fset, fmt.Sprintf("%s:%d", cl.File, cl.Line), text, 0)
-	if err != nil {
-		eng.broken = append(eng.broken, fmt.Sprintf("%s:%d: cannot parse %q: %v", cl.File, cl.Line, text, err))
-		return
+	var x ast.Expr
+	var info *types.Info
+	var err error
+	for attempt := 0; ; attempt++ {
+		x, err = parser.ParseExprFrom(eng.fset, fmt.Sprintf("%s:%d", cl.File, cl.Line), text, 0)
+		if err != nil {
+			eng.broken = append(eng.broken, fmt.Sprintf("%s:%d: cannot parse %q: %v", cl.File, cl.Line, text, err))
+			return
+		}
+		info = &types.Info{Types: map[ast.Expr]types.TypeAndValue{}, Defs: map[*ast.Ident]types.Object{}, Uses: map[*ast.Ident]types.Object{},
+			Selections: map[*ast.SelectorExpr]*types.Selection{}, Instances: map[*ast.Ident]types.Instance{}, Implicits: map[ast.Node]types.Object{},
+			Scopes: map[ast.Node]*types.Scope{}}
+		err = types.CheckExpr(eng.fset, p.Types, pos, x, info)
+		if err == nil || attempt >= 8 || eng.localClause == "" || u == nil {
+			break
+		}
+		// a clause over locals may name a variable of a nested block, provided the
+		// function has exactly one variable of that name: it is referred to through
+		// gh_local[T]("name")
+		m := undefinedRe.FindStringSubmatch(err.Error())
+		if m == nil || strings.HasPrefix(m[1], "gh_") {
+			break
+		}
+		obj := eng.uniqueLocal(u, m[1])
+		if obj == nil {
+			break
+		}
+		ts := types.TypeString(obj.Type(), eng.fileQualifier(u))
+		nt := replaceIdent(text, m[1], fmt.Sprintf("gh_local[%s](%q)", ts, m[1]))
+		if nt == text {
+			break
+		}
+		text = nt
+		if cl.Locals == nil {
+			cl.Locals = map[string]*types.Var{}
+		}
+		cl.Locals[m[1]] = obj
+		cl.Go = text
 	}
-	info := &types.Info{Types: map[ast.Expr]types.TypeAndValue{}, Defs: map[*ast.Ident]types.Object{}, Uses: map[*ast.Ident]types.Object{},
-		Selections: map[*ast.SelectorExpr]*types.Selection{}, Instances: map[*ast.Ident]types.Instance{}, Implicits: map[ast.Node]types.Object{},
-		Scopes: map[ast.Node]*types.Scope{}}
-	if err := types.CheckExpr(eng.fset, p.Types, pos, x, info); err != nil {
-		if m := undefinedRe.FindStringSubmatch(err.Error()); m != nil && eng.localClause != "" && u != nil && !strings.HasPrefix(m[1], "gh_") {
+	if err != nil {
+		if m := undefinedRe.FindStringSubmatch(err.Error()); m != nil && u != nil && !u.lemma && !strings.HasPrefix(m[1], "gh_") {
+			if eng.localClause == "" {
+				eng.localClause = cl.Label
+				defer func() { eng.localClause = "" }()
+			}
+			if u.C != nil && u.C.Trusted && len(u.C.Props) > 0 {
+				// trusted contracts are not verified, so nobody would report the clause: report it for the properties the contract serves
+				cl.unstatable = true
+				eng.missing = append(eng.missing, missingItem{name: u.Name() + "#" + eng.localClause + "#scope", props: u.C.Props, pos: fmt.Sprintf("%s:%d", cl.File, cl.Line),
+					desc: fmt.Sprintf("trusted contract clause %q can be stated: it names %q, which %s does not define", cl.Text, m[1], u.Key())})
+				return
+			}
 			// The clause names a local variable that the function does not have in
 			// scope there (any more): the obligation can no longer be stated for this
 			// code. It is reported as a failed obligation of that clause, not as a
@@ -557,6 +651,52 @@ func (eng *Engine) checkClause(p *packages.Package, cl *Clause, pos token.Pos, u
 		return
 	}
 	cl.Expr, cl.Info = x, info
+}
+
+// uniqueLocal returns the only local variable named name declared anywhere in
+// the body of u (nil if there is none or more than one).
+func (eng *Engine) uniqueLocal(u *FuncUnit, name string) *types.Var {
+	var found *types.Var
+	n := 0
+	for id, obj := range u.Pkg.TypesInfo.Defs {
+		if id.Name != name || obj == nil || id.Pos() < u.Decl.Body.Pos() || id.Pos() > u.Decl.Body.End() {
+			continue
+		}
+		if v, ok := obj.(*types.Var); ok && !v.IsField() {
+			found = v
+			n++
+		}
+	}
+	if n != 1 {
+		return nil
+	}
+	return found
+}
+
+// fileQualifier names packages the way the file declaring u imports them.
+func (eng *Engine) fileQualifier(u *FuncUnit) types.Qualifier {
+	names := map[string]string{}
+	for _, f := range u.Pkg.Syntax {
+		if f.Pos() <= u.Decl.Pos() && u.Decl.Pos() <= f.End() {
+			for _, imp := range f.Imports {
+				path := strings.Trim(imp.Path.Value, "\"")
+				if imp.Name != nil {
+					names[path] = imp.Name.Name
+				} else if q := u.Pkg.Imports[path]; q != nil {
+					names[path] = q.Name
+				}
+			}
+		}
+	}
+	return func(p *types.Package) string {
+		if p == u.Pkg.Types {
+			return ""
+		}
+		if n, ok := names[p.Path()]; ok {
+			return n
+		}
+		return p.Name()
+	}
 }
 
 // replaceIdent replaces whole-word occurrences of id not preceded by '.'.
@@ -573,6 +713,13 @@ func replaceIdent(s, id, repl string) string {
 		i++
 	}
 	return b.String()
+}
+
+// missingItem: something a contract names that the loaded code does not have.
+// It is reported as a failed obligation of every property the contract serves.
+type missingItem struct {
+	name, pos, desc string
+	props           []string
 }
 
 type pureSpec struct {
